@@ -240,6 +240,56 @@ func (pkg *pkg) Add(call *call) (string, error) {
 	return "", nil
 }
 
+// localType returns a named type that typ mentions and that is declared inside a function, or nil.
+func localType(typ types.Type) *types.Named {
+	first := func(ts ...types.Type) *types.Named {
+		for _, t := range ts {
+			if n := localType(t); n != nil {
+				return n
+			}
+		}
+		return nil
+	}
+	switch t := typ.(type) {
+	case *types.Named:
+		obj := t.Obj()
+		if obj.Pkg() != nil && obj.Parent() != nil && obj.Parent() != obj.Pkg().Scope() {
+			return t
+		}
+		args := t.TypeArgs()
+		for i := 0; i < args.Len(); i++ {
+			if n := localType(args.At(i)); n != nil {
+				return n
+			}
+		}
+	case *types.Pointer:
+		return localType(t.Elem())
+	case *types.Slice:
+		return localType(t.Elem())
+	case *types.Array:
+		return localType(t.Elem())
+	case *types.Chan:
+		return localType(t.Elem())
+	case *types.Map:
+		return first(t.Key(), t.Elem())
+	case *types.Struct:
+		for i := 0; i < t.NumFields(); i++ {
+			if n := localType(t.Field(i).Type()); n != nil {
+				return n
+			}
+		}
+	case *types.Tuple:
+		for i := 0; i < t.Len(); i++ {
+			if n := localType(t.At(i).Type()); n != nil {
+				return n
+			}
+		}
+	case *types.Signature:
+		return first(t.Params(), t.Results())
+	}
+	return nil
+}
+
 func (pkg *pkg) Done() bool {
 	for _, g := range pkg.generators {
 		if !g.Done() {
@@ -345,6 +395,10 @@ func (pkg *pkg) Generate() (bool, error) {
 			g := pkg.generators[plugin.Name()]
 			for _, typs := range g.ToGenerate() {
 				for _, typ := range typs {
+					if local := localType(typ); local != nil {
+						return false, fmt.Errorf("Generator Error: %s: a function over %s is needed, which is declared inside a function: "+
+							"generated code cannot name that type", plugin.Name(), local.Obj().Name())
+					}
 					if typeDepth(typ) > maxTypeDepth {
 						return false, fmt.Errorf("Generator Error: %s: type nested more than %d levels deep: "+
 							"a generic type that contains an ever larger instantiation of itself needs infinitely many functions", plugin.Name(), maxTypeDepth)
